@@ -94,6 +94,10 @@ def run(ctx, config='rel-all'):
                 if g.can_reach(eff_block, src) and eff_block != src or (eff_block == src and e.kind != 'call'):
                     ctx.violation('R1', fn, 'effect-before-empty-check:' + e.kind, 'reset performs a %s before it has checked that the arena owns a chunk (the empty-arena case must be a no-op)' % e.kind, e.span)
     ctx.ok('R1', '%s: early return only under is_empty(current chunk) and without effects' % fn, 'branch facts + reachability')
+    # ---- R4 'full usable capacity again': with the finger at the footer, a request is refused only if it
+    # is strictly larger than finger - data (shared with C18.O6)
+    from . import c18
+    c18.check_exact_refusal(ctx, A, config, 'R4')
     # ---- R3 frame
     for e in res.events:
         if e.kind == 'store':
